@@ -77,6 +77,10 @@ def gen_hrs(rng, small=True, odd_ok=False, with_opts=True):
         else:
             w = rng.choice((320, 160, 640, rng.randrange(2, 400, 2)))
             r = rng.choice((192, 97, 200, rng.randint(1, 200)))
+        if rng.random() < 0.08:
+            # rows and whole images around the io buffer sizes (8 KiB rows, 64 KiB images)
+            w = rng.choice((2730, 2732, 4096, 5462, 8192, 2 * rng.randint(1300, 6000)))
+            r = rng.choice((1, 2, 3, 5))
         if odd_ok and rng.random() < 0.35:
             w = max(1, w - 1)
         s = rng.choice((0, 0, 1, 7, rng.randint(0, 64)))
@@ -109,6 +113,9 @@ def gen_max(rng, small=True, w8_only=True, with_opts=True):
         else:
             w = rng.choice((256, 128, 512, 8 * rng.randint(1, 64)))
             rows = rng.choice((192, 96, rng.randint(1, 200)))
+        if rng.random() < 0.08:
+            w = 8 * rng.choice((342, 512, 1024, rng.randint(300, 1400)))
+            rows = rng.choice((1, 2, 3, 5))
         if not w8_only and rng.random() < 0.35:
             w = max(1, w - rng.randint(1, 7))
         s = rng.choice((0, 0, 0, 7, rng.randint(0, 40)))
